@@ -98,7 +98,7 @@ def r_no_downgrade(ctx):
         ctx.evals(len(paths))
         for p in paths:
             if p.exit[0] != "return":
-                ctx.undecided(rid, loc(fi), f"_set_preparing_at raises on the model state: {p.exit}")
+                ctx.violation(rid, fi.qual, loc(fi), "_set_preparing_at completes", f"_set_preparing_at ends with {p.exit[0]} {vkey(p.exit[1])[:60]} on a consistent state")
                 continue
             after = p.heap.get("state.ds2host", {}).get(D, {}).get(H1)
             if cur == "available" and after is not st("available"):
